@@ -27,6 +27,7 @@ fnv1(uint64_t h, const void *p, size_t n)
 struct fp {
         uint64_t h;
         int status, err;
+        int refbad; /* result differed from the reference model (reported by item_check) */
 };
 
 static struct mmgr *MM[NCFG];
@@ -88,20 +89,22 @@ run_one(int cfg, uint64_t u, const struct suite *cs, const struct suite *hs, int
         g_fault_jmp = NULL;
         g_job_done = NULL;
         out->status = ret_job ? (int) ret_job->status : -1;
+        out->refbad = 0;
         uint64_t h = 0xcbf29ce484222325ULL;
         if (valid && ret_job && ret_job->status == IMB_STATUS_COMPLETED) {
-                item_check(IT, ret_job, "C08", mm, g_cfgs[cfg].name);
+                /* a result that differs from the reference is reported by item_check under the item's own identity;
+                 * the cross-configuration comparison then adds nothing (and would hide that identity) */
+                out->refbad = item_check(IT, ret_job, "C08", mm, g_cfgs[cfg].name) != 0;
                 if (IT->cipher != IMB_CIPHER_NULL) {
                         const uint8_t *o = IT->inplace ? IT->src + IT->c_off : IT->dst;
-                        h = fnv1(h, o, IT->dst_len);
                         if (save_out)
                                 memcpy(save_out, o, IT->dst_len);
                 }
-                if (IT->tag_len) {
-                        h = fnv1(h, IT->tag, IT->tag_len);
-                        if (save_tag)
-                                memcpy(save_tag, IT->tag, IT->tag_len);
-                }
+                if (IT->tag_len && save_tag)
+                        memcpy(save_tag, IT->tag, IT->tag_len);
+                /* specified output bytes only (see item_output_hash) plus the whole source image */
+                uint64_t oh = item_output_hash(IT);
+                h = fnv1(h, &oh, sizeof oh);
                 h = fnv1(h, IT->src, IT->buf_len);
         }
         out->h = h;
@@ -247,6 +250,8 @@ eng_nver(void)
                                 first = c;
                                 continue;
                         }
+                        if (f.refbad || f0.refbad)
+                                continue;
                         if (f.status != f0.status || f.err != f0.err || f.h != f0.h) {
                                 char key[240], det[400];
                                 snprintf(key, sizeof key, "C08|%s|differs-from|%s|%s|%s|%s", g_cfgs[c].name, g_cfgs[first].name,
